@@ -53,6 +53,12 @@ def r09_1(ctx: Ctx):
             ce = C.call_event_of_result(p, p.value)
             src = ce.d['args'][0] if ce is not None and ce.d['args'] else p.value
             v = p.state.heap.get((key_of(src), ('[]', key_of(zero))))
+            sa = src.single_atom() if isinstance(src, RF) else None
+            if isinstance(sa, tuple) and len(sa) == 4 and sa[0] == 'attr' and sa[1] == key_of(selfv):
+                # whole-vector (vectorised) stores into the working array are read element-wise
+                v2 = evo.scratch_element(p, selfv, sa[2], 0, nval=RF.const(1))
+                if isinstance(v2, RF):
+                    v = v2
             exp = L + x * (U - L)
             ok = isinstance(v, RF) and C.strip_rf(v).equals(C.strip_rf(exp))
             ctx.check(ok, rid, fn.short, fn.loc(), 'N=1 image is L + x(U-L)',
@@ -69,6 +75,17 @@ def r09_1(ctx: Ctx):
             n += 1
             m = copy_elems_map(p)
             v = p.value
+            if isinstance(v, RF):
+                # an element of the working array read after a whole-vector store: element-wise semantics
+                from .c17 import scratch_attrs
+                for sname in sorted(scratch_attrs(ctx)):
+                    el, bases = evo.scratch_element(p, selfv, sname, 0, nval=RF.const(1), with_bases=True)
+                    if not isinstance(el, RF):
+                        continue
+                    for a in list(v.atoms()):
+                        if isinstance(a, tuple) and len(a) == 4 and a[0] == 'sub' and a[2] == key_of(zero) and \
+                                C.strip_versions(a[1]) in bases and not C.mentions(el, a):
+                            v = evo.subst_top(v, {a: el})
             if isinstance(v, RF):
                 v = C.strip_rf(C.subst_rf(C.strip_rf(v), {C.strip_versions(k): C.strip_versions(t) for k, t in m.items()}))
             exp = (sub(y, zero) - L) / (U - L)
